@@ -143,13 +143,19 @@ for _kind, _what in (("paren", "nested parentheses"), ("unary", "chained unary m
     F.append({"status": "open", "property": "C15", "id": f"stack-overflow-{_kind}", "signature": {"kind": "outcome", "class": "stack-overflow", "stress": _kind},
               "what": f"unbounded recursion in parser/binder/planner: {_what} overflows the stack and aborts the process instead of returning an error (no depth limit anywhere in the pipeline)",
               "example": f"python3 -c \"from vf.props.c15 import nest; print(nest('{_kind}', 10000))\""})
-fixed("C15", "ctas-failed-statement-leaves-table", "891fd3f17", "CREATE TABLE AS registered the table when the first batch arrived: a statement failing later (cast error on a later row) left the table in the catalog", ["C14"])
+fixed("C15", "ctas-failed-statement-leaves-table", "6428efcc2", "CREATE TABLE AS registered the table when the first batch arrived: a statement failing later (cast error on a later row) left the table in the catalog", ["C14"])
 B = "glaredb_core/src/functions/scalar/builtin/"
 panic("C15", "gcd-min-value-negate-panic", "attempt to negate with overflow", B + "numeric/gcd.rs", "gcd() takes abs() of the most negative integer: panic/wrap instead of an error (same family as the arithmetic overflow panics of C12)", "SELECT gcd('-9223372036854775808'::BIGINT, 2)", ["C05", "C12"])
 panic("C15", "lcm-overflow-panic", "attempt to multiply with overflow", B + "numeric/lcm.rs", "lcm() multiplies without a range check: panic/wrap instead of an error", "SELECT lcm(2147483647, 2147483646)", ["C05", "C12"])
 panic("C15", "lcm-min-value-negate-panic", "attempt to negate with overflow", B + "numeric/lcm.rs", "lcm() takes abs() of the most negative integer: panic/wrap instead of an error", "SELECT lcm('-9223372036854775808'::BIGINT, 2)", ["C05", "C12"])
 panic("C15", "epoch-multiply-overflow-panic", "attempt to multiply with overflow", B + "datetime/epoch.rs", "epoch()/epoch_ms() scale their argument to microseconds without a range check: panic/wrap instead of an error", "SELECT epoch(9223372036854775807)", ["C05", "C12"])
-fixed("C15", "left-right-split-part-min-count-negate", "c4c52b9fe", "left/right/split_part negated their count argument: i64::MIN panicked ('attempt to negate with overflow')", ["C20", "C05"])
+fixed("C15", "left-right-split-part-min-count-negate", "d27a997ad", "left/right/split_part negated their count argument: i64::MIN panicked ('attempt to negate with overflow')", ["C20", "C05"])
+fixed("C20", "like-rewrite-ignores-escape", "9c60fdcb0", "the optimizer rewrote constant LIKE patterns containing a backslash escape to =, starts_with, ends_with, contains using the raw pattern text: x LIKE 'a\\b' matched only the 3-character string with a backslash (optimizer on) instead of 'ab'", ["C02", "C05"])
+fixed("C20", "like-wildcards-exclude-newline", "37c77f551", "LIKE '_' and '%' did not match a line break in the general matcher (regex '.' without the s flag); the rewritten forms did, so optimizer on/off disagreed", ["C02"])
+fixed("C20", "regexp-invalid-column-pattern-unwritten-slot", "5a0d6e6d0", "regexp_count/regexp_instr/regexp_replace left the output slot unwritten when a per-row pattern did not compile: uninitialised memory returned as integers, or a garbage string view crashing the reader (array_buffer.rs:626)", ["C16", "C15", "C05"])
+fixed("C20", "regexp-instr-byte-offset", "1a1524c3e", "regexp_instr returned a byte offset instead of a character position", ["C05"])
+fixed("C20", "split-part-negative-index", "857192a50", "split_part with a negative index split from the end (different fields for self-overlapping delimiters) and ignored index -1 for an empty delimiter", ["C05"])
+fixed("C20", "pad-min-count-overflow", "68f13235c", "lpad/rpad overflowed on the most negative count (subtract/negate with overflow panics; a 2^63-step skip in rpad/3)", ["C15"])
 fixed("C17", "csv-last-record-without-newline-dropped", "901a81dae", "read_csv dropped the last record of a file not ending in a line break", ["C11"])
 fixed("C17", "csv-inference-ignores-unterminated-last-record", "8f587fc55", "dialect/type inference ignored the final record without line break even when the whole file was in the sample", [])
 fixed("C17", "csv-partial-record-leading-empty-fields-lost", "5395bbc8c", "leading empty fields of a record split across reads were lost (clear_completed discarded field ends of a partial record with no bytes yet), so results depended on read chunking/batch size", ["C03", "C16"])
